@@ -7,7 +7,7 @@ from typing import Any
 from sa.kern import make_evaluator
 from sa.report import Ctx
 from sa.srcmodel import ClassInfo, FuncInfo, func_body
-from sa.symterm import (Env, Evaluator, Poly, Unsupported, all_atoms, show)
+from sa.symterm import (Env, Evaluator, Poly, Unsupported, show)
 
 DEC = "moptipyapps.binpacking2d.instgen.inst_decoding"
 PKG = "moptipyapps.binpacking2d.instgen"
@@ -28,6 +28,19 @@ def _chain(root_body: list[ast.stmt], target: ast.AST) \
                 if r is not None:
                     return [(root_body, i)] + r
     return None
+
+
+def _simple_arith(e: ast.expr) -> bool:
+    """+, -, * over names and constants only (e.g. `1 - cut_dimension`): a
+    temporary of this kind is evaluated, not kept as a named symbol."""
+    if isinstance(e, (ast.Name, ast.Constant)):
+        return True
+    if isinstance(e, ast.UnaryOp) and isinstance(e.op, (ast.USub, ast.UAdd)):
+        return _simple_arith(e.operand)
+    if isinstance(e, ast.BinOp) and isinstance(
+            e.op, (ast.Add, ast.Sub, ast.Mult)):
+        return _simple_arith(e.left) and _simple_arith(e.right)
+    return False
 
 
 class BlockEval:
@@ -74,7 +87,8 @@ class BlockEval:
                 is_copy = isinstance(s.value, ast.Call) and isinstance(
                     s.value.func, ast.Attribute) and \
                     s.value.func.attr == "copy"
-                if isinstance(tg, ast.Name) and not is_copy:
+                if isinstance(tg, ast.Name) and not is_copy and \
+                        not _simple_arith(s.value):
                     env.vars[tg.id] = Poly.var(tg.id)
                     continue
             if isinstance(s, (ast.Assign, ast.AnnAssign, ast.AugAssign,
@@ -109,6 +123,17 @@ def _item_stores(fi: FuncInfo, body: list[ast.stmt], items: str) \
             if isinstance(tg, ast.Name) and isinstance(
                     v, ast.Subscript) and isinstance(
                     v.value, ast.Name) and v.value.id == items:
+                alias.add(tg.id)
+    # a copy of an element that is later appended is a piece as well
+    for n in ast.walk(ast.Module(body=body, type_ignores=[])):
+        if isinstance(n, (ast.Assign, ast.AnnAssign)) and n.value is not None:
+            v = n.value
+            tg = n.targets[0] if isinstance(n, ast.Assign) else n.target
+            if isinstance(tg, ast.Name) and isinstance(
+                    v, ast.Call) and isinstance(
+                    v.func, ast.Attribute) and v.func.attr == "copy" and \
+                    isinstance(v.func.value, ast.Name) and \
+                    v.func.value.id in alias:
                 alias.add(tg.id)
     out = []
     for n in ast.walk(ast.Module(body=body, type_ignores=[])):
@@ -317,20 +342,12 @@ def _phase1(ctx: Ctx, fi: FuncInfo, loop: ast.For, items: str) -> None:
            "one append", construct="exactly one append per split")
     # range(n_bins, n_items)
     it = loop.iter
+    from sa.srcmodel import inline_locals
+    it = inline_locals(fi.node, it)
     ok = isinstance(it, ast.Call) and isinstance(it.func, ast.Name) and \
         it.func.id == "range" and len(it.args) == 2 and \
         ast.unparse(it.args[1]) == "self.space.n_items"
-    lo_ok = False
-    if ok:
-        lo = it.args[0]
-        for s in func_body(fi):
-            if isinstance(s, (ast.Assign, ast.AnnAssign)):
-                tg = s.targets[0] if isinstance(s, ast.Assign) else s.target
-                if isinstance(tg, ast.Name) and isinstance(
-                        lo, ast.Name) and tg.id == lo.id and \
-                        s.value is not None and \
-                        ast.unparse(s.value) == "self.space.min_bins":
-                    lo_ok = True
+    lo_ok = bool(ok) and ast.unparse(it.args[0]) == "self.space.min_bins"
     ctx.ob("D17.2", fi, loop, bool(ok and lo_ok),
            f"phase 1 performs range({ast.unparse(it.args[0]) if ok else '?'}"
            ", self.space.n_items) splits starting from min_bins bin-sized "
@@ -744,41 +761,60 @@ def _positive_pieces(ctx: Ctx, fi: FuncInfo, items: str) -> None:
 
 # ------------------------------------------------------------------ D17.6
 def _selection(ctx: Ctx, fi: FuncInfo, items: str) -> None:
-    """items[...] is only indexed with (expr) % (current number of items)."""
+    """items[...] is only indexed with (expr) % (current number of items).
+
+    Concerns the two cutting phases, i.e. everything before the list is
+    sorted for merging (the merge scan has its own rule, D17.7)."""
     problems = []
     n = 0
+    sort_line = min((c.lineno for c in ast.walk(fi.node) if isinstance(
+        c, ast.Call) and isinstance(c.func, ast.Attribute)
+        and c.func.attr == "sort" and ast.unparse(c.func.value) == items),
+        default=10 ** 9)
+    # the current number of items: the counter of the phase-1 loop (which
+    # appends one item per round) and any local assigned len(items)
+    counts: set[str] = set()
+    for lp in ast.walk(fi.node):
+        if isinstance(lp, ast.For) and isinstance(
+                lp.target, ast.Name) and any(
+                isinstance(c, ast.Call) and isinstance(
+                    c.func, ast.Attribute) and c.func.attr == "append"
+                and ast.unparse(c.func.value) == items
+                for c in ast.walk(lp)):
+            counts.add(lp.target.id)
+    lens = [d for d in ast.walk(fi.node) if isinstance(
+        d, (ast.Assign, ast.AnnAssign)) and d.value is not None and
+        ast.unparse(d.value).replace(" ", "") in (
+            f"list.__len__({items})", f"len({items})")
+        and d.lineno < sort_line]
+    for d in lens:
+        tg = d.targets[0] if isinstance(d, ast.Assign) else d.target
+        if isinstance(tg, ast.Name):
+            counts.add(tg.id)
     for s in ast.walk(fi.node):
         if isinstance(s, (ast.Assign, ast.AnnAssign)) and isinstance(
                 s.value, ast.Subscript) and ast.unparse(
                 s.value.value) == items and isinstance(
-                s.value.slice, ast.Name):
+                s.value.slice, ast.Name) and s.lineno < sort_line:
             idx = s.value.slice.id
-            if idx in ("lo", "hi"):
-                continue
             n += 1
             defs = [d for d in ast.walk(fi.node) if isinstance(
                 d, (ast.Assign, ast.AnnAssign)) and d.value is not None
                 and isinstance(d.targets[0] if isinstance(d, ast.Assign)
                                else d.target, ast.Name) and (
                     d.targets[0] if isinstance(d, ast.Assign)
-                    else d.target).id == idx]
+                    else d.target).id == idx and d.lineno < sort_line]
             for d in defs:
                 v = d.value
                 if isinstance(v, ast.Name):      # orig_sel_i = sel_i etc.
                     continue
                 if not (isinstance(v, ast.BinOp) and isinstance(
                         v.op, ast.Mod) and isinstance(v.right, ast.Name)
-                        and v.right.id == "cur_n_items"):
+                        and v.right.id in counts):
                     problems.append(
                         f"`{ast.unparse(d)[:70]}`: the item index is not "
                         "reduced modulo the current number of items")
-    # cur_n_items is the length of the list in both phases
-    lens = [d for d in ast.walk(fi.node) if isinstance(
-        d, (ast.Assign, ast.AnnAssign)) and d.value is not None and
-        ast.unparse(d.targets[0] if isinstance(d, ast.Assign)
-                    else d.target) == "cur_n_items"]
-    ok_len = len(lens) == 1 and ast.unparse(lens[0].value).replace(
-        " ", "") in (f"list.__len__({items})", f"len({items})")
+    ok_len = len(lens) == 1
     if not ok_len:
         problems.append("phase 2 does not take the number of items from "
                         "the list")
@@ -831,7 +867,11 @@ def _merge_and_deliver(ctx: Ctx, fi: FuncInfo, items: str,
                      isinstance(s.test, ast.BoolOp)), None)
         dele = next((s for s in mb if isinstance(s, ast.While) and
                      isinstance(s.test, ast.Compare)), None)
-        if scan is None or dele is None:
+        if scan is not None and dele is None:
+            why = _merge_by_slice(fi, merge, scan, items, lo, nn)
+            if why:
+                problems.append(why)
+        elif scan is None or dele is None:
             problems.append("merge: scan-equal / delete-duplicates loops "
                             "not found")
         else:
@@ -904,11 +944,44 @@ def _merge_and_deliver(ctx: Ctx, fi: FuncInfo, items: str,
         # y[0] = res only when the list is non-empty
         for n in cfg.nodes:
             if delivers(n) and isinstance(n.ast, ast.Assign):
-                guard = [t for t in cfg.nodes if t.kind == "test" and any(
-                    m is n and lb is True for m, lb in t.succ)]
-                if not guard or src(guard[0].ast) not in (
-                        f"list.__len__({yn})>0", f"len({yn})>0",
-                        f"len({yn})>=1", yn):
+                guard = [(t, lb) for t in cfg.nodes if t.kind == "test"
+                         for m, lb in t.succ if m is n]
+                nonempty = False
+                if len(guard) == 1:
+                    from sa.casesplit import equivalent
+                    from sa.kern import py_calls
+                    from sa.symterm import c_and, c_not
+                    t, lb = guard[0]
+                    if isinstance(t.ast, ast.Name) and t.ast.id == yn:
+                        nonempty = lb is True
+                    else:
+                        gev = make_evaluator(ctx.repo, fi,
+                                             extra_call=py_calls)
+
+                        class LenCall(ast.NodeTransformer):
+                            def visit_Call(self, c: ast.Call) -> ast.AST:
+                                if src(c) in (f"list.__len__({yn})",
+                                              f"len({yn})"):
+                                    return ast.Name(id="len$",
+                                                    ctx=ast.Load())
+                                return self.generic_visit(c)
+                        import copy as _copy
+                        t2 = ast.fix_missing_locations(LenCall().visit(
+                            _copy.deepcopy(t.ast)))
+                        env = Env()
+                        LEN = Poly.var("len$v")
+                        env.vars["len$"] = LEN
+                        try:
+                            c = gev.cond(env, t2)
+                            if lb is False:
+                                c = c_not(c)
+                            # the edge taken implies len >= 1
+                            nonempty = lb in (True, False) and equivalent(
+                                c_and(c, ("le", LEN, Poly.const(0))),
+                                ("false",))[0]
+                        except Unsupported:
+                            nonempty = False
+                if not nonempty:
                     okd = False
                     why = "y[0] is written although the receiver may be empty"
         if merge is not None and body.index(merge) > next(
@@ -920,6 +993,92 @@ def _merge_and_deliver(ctx: Ctx, fi: FuncInfo, items: str,
            "the instance is built from the merged items and stored in the "
            "receiver on every path (y[0] if present, else appended)"
            if okd else why, construct="instance delivered")
+
+
+def _merge_by_slice(fi: FuncInfo, merge: ast.While, scan: ast.While,
+                    items: str, lo: str, nn: str) -> str | None:
+    """The other merge idiom: scan the run [lo, hi), append hi - lo to the
+    kept item, `del items[lo + 1:hi]`, n -= (hi - lo) - 1, lo += 1.  All
+    quantities are compared as values (locals inlined)."""
+    from sa.pathinline import paths
+
+    def src(n: ast.AST | None) -> str:
+        return ast.unparse(n).replace(" ", "") if n is not None else "?"
+    # the scan: while hi < n and items[hi] == cur: hi += 1
+    hi = None
+    if isinstance(scan.test, ast.BoolOp) and isinstance(
+            scan.test.op, ast.And):
+        for v in scan.test.values:
+            if isinstance(v, ast.Compare) and isinstance(
+                    v.left, ast.Name) and isinstance(
+                    v.ops[0], ast.Lt) and src(v.comparators[0]) == nn:
+                hi = v.left.id
+    if hi is None or [src(x) for x in scan.body] not in (
+            [f"{hi}+=1"], [f"{hi}={hi}+1"], [f"{hi}=1+{hi}"]):
+        return ("the run of equal items is not scanned as `while hi < n "
+                "and items[hi] == cur: hi += 1`")
+    qs = paths(merge.body)
+    if len(qs) != 1:
+        return "a round of the merge scan is not straight-line code"
+    q = qs[0]
+    scans = [e for e in q.events if e.kind == "loop" and e.node is scan]
+    dels = [e for e in q.events if e.kind == "other" and isinstance(
+        e.node, ast.Delete)]
+    apps = [e for e in q.events if e.kind == "expr" and isinstance(
+        e.value, ast.Call) and isinstance(e.value.func, ast.Attribute)
+        and e.value.func.attr == "append"]
+    if len(scans) != 1 or len(dels) != 1 or len(apps) != 1 or len(
+            q.events) != 3:
+        return ("a round of the merge scan must scan the run, append the "
+                "multiplicity and delete the duplicates")
+    # the scan starts at hi = lo and compares with items[lo]
+    test_in = src(scans[0].value)
+    if f"{items}[{lo}]=={items}[{lo}]" not in test_in or not (
+            test_in.startswith(f"{lo}<{nn}") or f"({lo}<{nn})" in test_in):
+        return "the scan of a run does not start at the kept item itself"
+    # after the scan `hi` is whatever the loop left: a free name
+    L, Hh, N = Poly.var(lo), Poly.var(hi), Poly.var(nn)
+    from sa.symterm import Evaluator
+    pev = Evaluator()
+    pev.int_transparent = True
+    env = Env()
+
+    def num(e: ast.expr | None) -> Poly | None:
+        try:
+            return pev.num(env, e) if e is not None else None
+        except Unsupported:
+            return None
+    mult = num(apps[0].value.args[0]) if len(
+        apps[0].value.args) == 1 else None
+    if mult != Hh - L or src(apps[0].value.func.value) != \
+            f"{items}[{lo}]":
+        return ("the multiplicity hi - lo is not appended to the kept "
+                "item")
+    dv = dels[0].value or []
+    tgt = dv[0] if len(dv) == 1 else None
+    ok_del = isinstance(tgt, ast.Subscript) and src(
+        tgt.value) == items and isinstance(tgt.slice, ast.Slice) and \
+        tgt.slice.step is None
+    if ok_del:
+        lo_e = num(tgt.slice.lower)
+        hi_e = num(tgt.slice.upper)
+        ok_del = lo_e == L + Poly.const(1) and hi_e == Hh
+    if not ok_del:
+        return ("the duplicates items[lo + 1:hi] are not deleted")
+    n_new = num(q.env.get(nn))
+    lo_new = num(q.env.get(lo))
+    if n_new != N - (Hh - L) + Poly.const(1):
+        return ("the number of rows is not reduced by the number of "
+                "deleted duplicates")
+    if lo_new != L + Poly.const(1):
+        return "the merge scan does not advance to the next distinct item"
+    # the append of the multiplicity precedes the deletion and follows the
+    # scan
+    order = [q.events.index(scans[0]), q.events.index(apps[0]),
+             q.events.index(dels[0])]
+    if order != sorted(order):
+        return "merge steps out of order (scan, append, delete)"
+    return None
 
 
 # ------------------------------------------------------------------ D17.8
@@ -938,20 +1097,30 @@ def _search_protocol(ctx: Ctx, fi: FuncInfo) -> None:
                 d.targets[0] if isinstance(d, ast.Assign)
                 else d.target).id == name]
 
-    def domain(e: ast.expr, env: dict[str, set[int]]) -> set[int] | None:
+    def domain(e: ast.expr, env: dict[str, set[int]],
+               depth: int = 0) -> set[int] | None:
         c = repo.const(fi.module, e)
         if isinstance(c, int) and not isinstance(c, bool):
             return {c}
         if isinstance(e, ast.IfExp):
-            a, b = domain(e.body, env), domain(e.orelse, env)
+            a, b = domain(e.body, env, depth), domain(e.orelse, env, depth)
             return None if a is None or b is None else a | b
         if isinstance(e, ast.Name) and e.id in env:
             return env[e.id]
+        if isinstance(e, ast.Name) and depth < 4:
+            # a temporary: the union over its definitions
+            ds = [domain(v_, env, depth + 1) for v_ in asg(e.id)]
+            if ds and all(d_ is not None for d_ in ds):
+                out: set[int] = set()
+                for d_ in ds:
+                    out |= d_
+                return out
+            return None
         if isinstance(e, ast.UnaryOp) and isinstance(e.op, ast.USub):
-            a = domain(e.operand, env)
+            a = domain(e.operand, env, depth)
             return None if a is None else {-x for x in a}
         if isinstance(e, ast.BinOp) and isinstance(e.op, (ast.Add, ast.Sub)):
-            a, b = domain(e.left, env), domain(e.right, env)
+            a, b = domain(e.left, env, depth), domain(e.right, env, depth)
             if a is None or b is None:
                 return None
             return {x + y if isinstance(e.op, ast.Add) else x - y
@@ -963,9 +1132,19 @@ def _search_protocol(ctx: Ctx, fi: FuncInfo) -> None:
         if d is None or not d <= {0, 1}:
             problems.append(f"`cut_dimension = {ast.unparse(v)}` can leave "
                             f"{{0, 1}} (values {sorted(d) if d else '?'})")
+    derived = {"cut_dimension"} | {
+        (d.targets[0] if isinstance(d, ast.Assign) else d.target).id
+        for d in ast.walk(fi.node) if isinstance(
+            d, (ast.Assign, ast.AnnAssign)) and d.value is not None
+        and isinstance(d.targets[0] if isinstance(d, ast.Assign)
+                       else d.target, ast.Name)
+        and isinstance(d.value, ast.BinOp)
+        and "cut_dimension" in ast.unparse(d.value)}
     other = [n for n in ast.walk(fi.node) if isinstance(n, ast.Subscript)
-             and isinstance(n.slice, ast.BinOp) and "cut_dimension" in
-             ast.unparse(n.slice)]
+             and ((isinstance(n.slice, ast.BinOp) and "cut_dimension" in
+                   ast.unparse(n.slice)) or (isinstance(
+                       n.slice, ast.Name) and n.slice.id in derived
+                 and n.slice.id != "cut_dimension"))]
     for n in other:
         d = domain(n.slice, {"cut_dimension": {0, 1}})
         if d is None or not d <= {0, 1}:
@@ -980,27 +1159,35 @@ def _search_protocol(ctx: Ctx, fi: FuncInfo) -> None:
                             "never end")
     # the step: sel_i := (sel_i + sel_dir) mod n (possibly re-normalised)
     def strip(e: ast.expr) -> ast.expr:
-        # ((A % n) + n) % n  ==  A % n
+        # ((A % n) + n) % n  ==  (n + (A % n)) % n  ==  A % n
         if isinstance(e, ast.BinOp) and isinstance(e.op, ast.Mod) and \
                 isinstance(e.left, ast.BinOp) and isinstance(
-                e.left.op, ast.Add) and ast.unparse(e.left.right) == \
-                ast.unparse(e.right) and isinstance(
-                e.left.left, ast.BinOp) and isinstance(
-                e.left.left.op, ast.Mod) and ast.unparse(
-                e.left.left.right) == ast.unparse(e.right):
-            return e.left.left
+                e.left.op, ast.Add):
+            for a_, b_ in ((e.left.left, e.left.right),
+                           (e.left.right, e.left.left)):
+                if ast.unparse(b_) == ast.unparse(e.right) and isinstance(
+                        a_, ast.BinOp) and isinstance(
+                        a_.op, ast.Mod) and ast.unparse(
+                        a_.right) == ast.unparse(e.right):
+                    return a_
         return e
     steps = [v for v in asg("sel_i") if "sel_dir" in ast.unparse(v)
              or "sel_i" in ast.unparse(v)]
     if len(steps) < 2:
         problems.append("the step to the next item (sel_i + sel_dir) was "
                         "not found in both phases")
+    from sa.symterm import Evaluator
+    pev = Evaluator()
     for v in steps:
         core = strip(v)
         ok = isinstance(core, ast.BinOp) and isinstance(
-            core.op, ast.Mod) and ast.unparse(core.right) == "cur_n_items" \
-            and ast.unparse(core.left).replace(" ", "").strip("()") in (
-                "sel_i+sel_dir", "sel_dir+sel_i")
+            core.op, ast.Mod) and ast.unparse(core.right) == "cur_n_items"
+        if ok:
+            try:
+                ok = pev.num(Env(), core.left) == Poly.var(
+                    "sel_i") + Poly.var("sel_dir")
+            except Unsupported:
+                ok = False
         if not ok:
             problems.append(f"`sel_i = {ast.unparse(v)[:60]}` is not (sel_i "
                             "+ sel_dir) mod n: not every item is visited, "
@@ -1028,30 +1215,57 @@ def _search_protocol(ctx: Ctx, fi: FuncInfo) -> None:
     walk(func_body(fi), [])
     # bounded search loops: `while v < K` needs v to advance when the scan
     # has wrapped around (sel_i == orig_sel_i)
+    def bounded(t: ast.expr) -> str | None:
+        """`v < K` / `K > v` with a constant K -> v."""
+        if isinstance(t, ast.Compare) and len(t.ops) == 1:
+            l_, r_, op = t.left, t.comparators[0], t.ops[0]
+            if isinstance(op, (ast.Lt, ast.LtE)) and isinstance(
+                    l_, ast.Name) and isinstance(
+                    repo.const(fi.module, r_), int):
+                return l_.id
+            if isinstance(op, (ast.Gt, ast.GtE)) and isinstance(
+                    r_, ast.Name) and isinstance(
+                    repo.const(fi.module, l_), int):
+                return r_.id
+        return None
+
+    def inc_of(a: ast.stmt, v: str) -> int | None:
+        """The constant a statement adds to v (None: not such a step)."""
+        if isinstance(a, ast.AugAssign) and isinstance(
+                a.target, ast.Name) and a.target.id == v and isinstance(
+                a.op, ast.Add):
+            c = repo.const(fi.module, a.value)
+            return c if isinstance(c, int) else None
+        if isinstance(a, ast.Assign) and len(a.targets) == 1 and isinstance(
+                a.targets[0], ast.Name) and a.targets[0].id == v and \
+                isinstance(a.value, ast.BinOp) and isinstance(
+                a.value.op, ast.Add):
+            for x, y in ((a.value.left, a.value.right),
+                         (a.value.right, a.value.left)):
+                if isinstance(x, ast.Name) and x.id == v and isinstance(
+                        repo.const(fi.module, y), int):
+                    return repo.const(fi.module, y)
+        return None
     for w in ast.walk(fi.node):
-        if isinstance(w, ast.While) and isinstance(
-                w.test, ast.Compare) and len(w.test.ops) == 1 and isinstance(
-                w.test.ops[0], ast.Lt) and isinstance(
-                w.test.left, ast.Name) and isinstance(repo.const(
-                    fi.module, w.test.comparators[0]), int) and any(
+        if isinstance(w, ast.While) and bounded(w.test) is not None and any(
                 isinstance(x, ast.Name) and x.id == "orig_sel_i"
                 for x in ast.walk(w)):
-            v = w.test.left.id
-            incs = [a for a in ast.walk(w) if isinstance(a, ast.AugAssign)
-                    and isinstance(a.target, ast.Name) and a.target.id == v]
+            v = bounded(w.test)
+            writes = [a for a in ast.walk(w) if isinstance(
+                a, (ast.Assign, ast.AnnAssign, ast.AugAssign)) and any(
+                isinstance(t, ast.Name) and t.id == v for t in (
+                    a.targets if isinstance(a, ast.Assign)
+                    else [a.target]))]
             wraps = [i_ for i_ in ast.walk(w) if isinstance(i_, ast.If)
-                     and isinstance(i_.test, ast.Compare) and sorted(
+                     and isinstance(i_.test, ast.Compare) and isinstance(
+                         i_.test.ops[0], ast.Eq) and sorted(
                          ast.unparse(x) for x in [i_.test.left]
                          + i_.test.comparators) == ["orig_sel_i", "sel_i"]]
-            good = [a for a in incs if isinstance(a.op, ast.Add) and
-                    isinstance(repo.const(fi.module, a.value), int) and
-                    repo.const(fi.module, a.value) >= 1]
-            in_wrap = any(any(a is x for x in ast.walk(i_)) for a in good
-                          for i_ in wraps)
-            if len(good) != len(incs) or not in_wrap or any(
-                    isinstance(a, (ast.Assign, ast.AnnAssign)) and
-                    ast.unparse(a.targets[0] if isinstance(a, ast.Assign)
-                                else a.target) == v for a in ast.walk(w)):
+            good = [a for a in writes if (inc_of(a, v) or 0) >= 1]
+            in_wrap = any(any(a is x for x in ast.walk(
+                ast.Module(body=i_.body, type_ignores=[])))
+                for a in good for i_ in wraps)
+            if len(good) != len(writes) or not in_wrap:
                 problems.append(
                     f"the bounded search `while {ast.unparse(w.test)}` does "
                     f"not advance `{v}` when the scan has wrapped around: "
@@ -1099,14 +1313,17 @@ def _zero_on_template(ctx: Ctx) -> None:
                     space_stat[tg.attr] = (src(v.func), src(sl.elts[1]))
     # ---- the instance side
     body = func_body(er)
+    xpar = er.params[1]
     inst = None
     local: dict[str, str] = {}
-    for s in body:
+    for s in ast.walk(er.node):
         if isinstance(s, (ast.Assign, ast.AnnAssign)) and s.value is not None:
             tg = s.targets[0] if isinstance(s, ast.Assign) else s.target
             if isinstance(tg, ast.Name):
-                local[tg.id] = src(s.value)
-                if "isinstance" in local[tg.id] and "[0]" in local[tg.id]:
+                local.setdefault(tg.id, src(s.value))
+                v_ = src(s.value)
+                if v_ == f"{xpar}[0]" or (
+                        "isinstance" in v_ and f"{xpar}[0]" in v_):
                     inst = tg.id
     loop = next((s for s in body if isinstance(s, ast.For)), None)
     problems: list[str] = []
@@ -1115,17 +1332,50 @@ def _zero_on_template(ctx: Ctx) -> None:
                "Errors.evaluate structure not recognised",
                construct="zero on the template")
         return
+    # the accumulator: the local that the returned ratio is computed from
+    from sa.srcmodel import inline_locals
+    rets = [r for r in ast.walk(er.node) if isinstance(r, ast.Return)
+            and r.value is not None]
+    acc = "errors"
+    if rets:
+        rv = inline_locals(er.node, rets[-1].value, keep={inst})
+        divs = [n for n in ast.walk(rv) if isinstance(n, ast.BinOp)
+                and isinstance(n.op, ast.Div) and isinstance(
+                    n.left, ast.Name)]
+        if len(divs) == 1:
+            acc = divs[0].left.id
     rowv = src(loop.target)
-    rows_ok = src(loop.iter) in (f"range({inst}.n_different_items)",
-                                 "range(n_different)") and local.get(
-        "n_different", f"{inst}.n_different_items") == \
-        f"{inst}.n_different_items"
+    it = src(inline_locals(er.node, loop.iter, keep={inst}))
+    rows_ok = it == f"range({inst}.n_different_items)"
     if not rows_ok:
         problems.append("the statistics do not run over all rows of the "
                         "instance")
     col_of: dict[str, str] = {}
     fold: dict[str, tuple] = {}
     area_ok = False
+    area_var = None
+
+    def fold_if(s_: ast.stmt) -> tuple[str, str, str] | None:
+        """`if v < m: m = v` (min) / `if v > m: m = v` (max), mirrored
+        spellings included -> (m, kind, v)."""
+        if not (isinstance(s_, ast.If) and not s_.orelse and len(
+                s_.body) == 1 and isinstance(
+                s_.body[0], ast.Assign) and isinstance(
+                s_.body[0].targets[0], ast.Name) and isinstance(
+                s_.body[0].value, ast.Name) and isinstance(
+                s_.test, ast.Compare) and len(s_.test.ops) == 1):
+            return None
+        m_, v_ = s_.body[0].targets[0].id, s_.body[0].value.id
+        l_, r_ = src(s_.test.left), src(s_.test.comparators[0])
+        op = s_.test.ops[0]
+        if {l_, r_} != {m_, v_}:
+            return None
+        less = isinstance(op, (ast.Lt, ast.LtE))
+        greater = isinstance(op, (ast.Gt, ast.GtE))
+        if not (less or greater):
+            return None
+        v_smaller = (less and l_ == v_) or (greater and l_ == m_)
+        return (m_, "min" if v_smaller else "max", v_)
     for s in loop.body:
         if isinstance(s, (ast.Assign, ast.AnnAssign)) and s.value is not None:
             tg = s.targets[0] if isinstance(s, ast.Assign) else s.target
@@ -1142,14 +1392,19 @@ def _zero_on_template(ctx: Ctx) -> None:
                 other = [src(a) for a in v.args if src(a) != tg.id]
                 if len(other) == 1:
                     fold[tg.id] = (src(v.func), col_of.get(other[0], "?"))
+        fi_ = fold_if(s)
+        if fi_ is not None and fi_[2] in col_of:
+            fold[fi_[0]] = (fi_[1], col_of[fi_[2]])
         if isinstance(s, ast.AugAssign) and isinstance(s.op, ast.Add) and \
-                src(s.target) == "total_area":
+                isinstance(s.target, ast.Name) and s.target.id != acc:
             names = sorted(col_of.get(x.id, x.id) for x in ast.walk(s.value)
                            if isinstance(x, ast.Name))
-            area_ok = names == ["IDX_HEIGHT", "IDX_REPETITION", "IDX_WIDTH"]\
-                and all(isinstance(x, (ast.Name, ast.BinOp, ast.Mult,
-                                       ast.Load))
-                        for x in ast.walk(s.value))
+            if names == ["IDX_HEIGHT", "IDX_REPETITION", "IDX_WIDTH"] \
+                    and all(isinstance(x, (ast.Name, ast.BinOp, ast.Mult,
+                                           ast.Load))
+                            for x in ast.walk(s.value)):
+                area_ok = True
+                area_var = s.target.id
     # initial values of the folds must be neutral
     for v, (kind, c) in fold.items():
         init = local.get(v, "")
@@ -1161,37 +1416,64 @@ def _zero_on_template(ctx: Ctx) -> None:
                             f"neutral for the {kind} over column {c}")
     # ---- every |A - B| term pairs matching statistics
     n_terms = 0
+    adds: list[ast.expr] = []
     for s in ast.walk(er.node):
-        if isinstance(s, ast.AugAssign) and src(s.target) == "errors" and \
-                isinstance(s.value, ast.Call) and src(s.value.func) == "abs":
-            d = s.value.args[0]
+        if isinstance(s, ast.AugAssign) and src(s.target) == acc and \
+                isinstance(s.op, ast.Add):
+            adds.append(s.value)
+        elif isinstance(s, (ast.Assign, ast.AnnAssign)) and \
+                s.value is not None and src(
+                s.targets[0] if isinstance(s, ast.Assign)
+                else s.target) == acc:
+            adds.append(s.value)
+
+    def abs_terms(e: ast.expr) -> list[ast.Call] | None:
+        """e as a sum of abs(...) calls (and the accumulator / 0)."""
+        if isinstance(e, ast.BinOp) and isinstance(e.op, ast.Add):
+            a_, b_ = abs_terms(e.left), abs_terms(e.right)
+            return None if a_ is None or b_ is None else a_ + b_
+        if isinstance(e, ast.Call) and src(e.func) == "abs" and len(
+                e.args) == 1:
+            return [e]
+        if isinstance(e, ast.Name) and e.id == acc:
+            return []
+        if isinstance(e, ast.Constant) and e.value == 0:
+            return []
+        return None
+    for e in adds:
+        terms = abs_terms(e)
+        if terms is None:
+            continue            # a range penalty (checked below)
+        for call_ in terms:
+            d = call_.args[0]
             if not (isinstance(d, ast.BinOp) and isinstance(d.op, ast.Sub)):
-                problems.append(f"`{src(s)}` is not a difference")
+                problems.append(f"`{src(call_)}` is not a difference")
                 continue
             n_terms += 1
             a, b = src(d.left), src(d.right)
             a = local.get(a, a) if a in local and a not in fold and \
-                a != "total_area" else a
-            b = local.get(b, b) if b in local and b not in fold else b
+                a != area_var else a
+            b = local.get(b, b) if b in local and b not in fold and \
+                b != area_var else b
             if not b.startswith("space."):
                 a, b = b, a
             attr = b[len("space."):] if b.startswith("space.") else None
             st = space_stat.get(attr or "")
             if st is None:
-                problems.append(f"`{src(s)}`: the goal `{b}` is not an "
+                problems.append(f"`{src(call_)}`: the goal `{b}` is not an "
                                 "attribute computed from the template")
                 continue
             if a.startswith(inst + "."):
                 ok = st == ("attr", a[len(inst) + 1:])
             elif a in fold:
                 ok = st == fold[a]
-            elif a == "total_area":
+            elif a == area_var:
                 ok = st == ("attr", "total_item_area") and area_ok
             else:
                 ok = False
             if not ok:
                 problems.append(
-                    f"`{src(s)}` compares `{a}` with the template's "
+                    f"`{src(call_)}` compares `{a}` with the template's "
                     f"{st}: not the same statistic")
     if n_terms < 9:
         problems.append(f"only {n_terms} deviation terms found (bin width, "
@@ -1199,24 +1481,29 @@ def _zero_on_template(ctx: Ctx) -> None:
                         "area)")
     # ---- range penalties only for rows outside the goal range
     for s in ast.walk(loop):
-        if isinstance(s, ast.If):
+        if isinstance(s, ast.If) and fold_if(s) is None:
             chain = [s] + ([s.orelse[0]] if len(s.orelse) == 1 and isinstance(
                 s.orelse[0], ast.If) else [])
             for c in chain:
                 t = c.test
                 if not (isinstance(t, ast.Compare) and len(t.ops) == 1 and
                         len(c.body) == 1 and isinstance(
-                        c.body[0], ast.AugAssign)):
+                        c.body[0], ast.AugAssign) and src(
+                        c.body[0].target) == acc):
                     continue
                 w, g = src(t.left), src(t.comparators[0])
+                lo = isinstance(t.ops[0], ast.Lt)
+                hi = isinstance(t.ops[0], ast.Gt)
+                if w not in col_of and g in col_of:
+                    # mirrored: goal > width  ==  width < goal
+                    w, g = g, w
+                    lo, hi = hi, lo
                 gv = local.get(g, g)
                 st = space_stat.get(gv[len("space."):]) if gv.startswith(
                     "space.") else None
                 amt = c.body[0].value
                 names = {x.id for x in ast.walk(amt)
                          if isinstance(x, ast.Name)}
-                lo = isinstance(t.ops[0], ast.Lt)
-                hi = isinstance(t.ops[0], ast.Gt)
                 okp = st is not None and col_of.get(w) == st[1] and (
                     (lo and st[0] == "min") or (hi and st[0] == "max")) \
                     and {w, g} <= names
